@@ -315,7 +315,7 @@ package abft
 //@   requires deref(captured(filter, "(*Lachesis).confirmEvents$1", "frame", "*idx.Frame")) != 0
 //@   requires dinv() && closed(p)
 //@   modifies gConf[*], gDeliv[*]
-//@   ensures  [closed] result == nil ==> closed(p) && gConf[head] != 0
+//@   ensures  [closed] result == nil && closed(p) && gConf[head] != 0
 //@   ensures  [once] dinv()
 //@   ensures  [keep] forall(x hash.Event, old(gConf[x]) != 0 ==> gConf[x] == old(gConf[x]))
 //@   ensures  [mark] forall(x hash.Event, gConf[x] == old(gConf[x]) || gConf[x] == deref(captured(filter, "(*Lachesis).confirmEvents$1", "frame", "*idx.Frame")))
@@ -341,8 +341,41 @@ package abft
 //@ func (*Lachesis).confirmEvents
 //@   requires p != nil && p.Orderer != nil && p.store != nil && p.input != nil && frame != 0 && dinv() && closed(p.Orderer)
 //@   modifies gConf[*], gDeliv[*]
-//@   ensures  [closed] result == nil ==> closed(p.Orderer) && gConf[atropos] != 0
+//@   ensures  [closed] result == nil && closed(p.Orderer) && gConf[atropos] != 0
 //@   ensures  [once] dinv()
 //@   ensures  [keep] forall(x hash.Event, old(gConf[x]) != 0 ==> gConf[x] == old(gConf[x]))
 //@   ensures  [mark] forall(x hash.Event, gConf[x] == old(gConf[x]) || gConf[x] == frame)
 //@   ensures  [exact] onEventConfirmed != nil ==> forall(x hash.Event, gDeliv[x] == old(gDeliv[x]) + ite(old(gConf[x]) == 0 && gConf[x] != 0, 1, 0))
+//@
+//@ // ---- blocks: cheaters (C03) and delivery (C02) ----
+//@ iface DagIndex.GetMergedHighestBefore
+//@   pure
+//@   ensures result != nil
+//@ iface DagIndex.ForklessCause
+//@   pure
+//@ // cheat(p, a, i): the merged vector clock of event a shows a fork of the validator with index i
+//@ spec cheat(p *Lachesis, a hash.Event, i int) bool = p.dagIndex.GetMergedHighestBefore(a).Get(i).IsForkDetected()
+//@ // ccount(p, a, n): number of validator indices below n with a fork
+//@ spec opaque ccount(p *Lachesis, a hash.Event, n int) int = ite(n <= 0, 0, ccount(p, a, n-1) + ite(cheat(p, a, n-1), 1, 0))
+//@ lemma ccount_bounds(p *Lachesis, a hash.Event, n int) by induction(n) { unfold ccount(p, a, n) }
+//@   requires n >= 0
+//@   ensures  forall(m, 0, n + 1, 0 <= ccount(p, a, m) && ccount(p, a, m) <= m)
+//@ lemma ccount_lt(p *Lachesis, a hash.Event, n int) by induction(n) { unfold ccount(p, a, n) }
+//@   requires n >= 0
+//@   ensures  forall(m, 0, n, cheat(p, a, m) ==> ccount(p, a, m) < ccount(p, a, n))
+//@
+//@ func (*Lachesis).applyAtropos
+//@   requires p != nil && p.Orderer != nil && p.store != nil && p.input != nil && p.dagIndex != nil && p.crit != nil && decidedFrame != 0 && dinv() && closed(p.Orderer)
+//@   modifies gConf[*], gDeliv[*], gBlkN, gBlkAtropos, gBlkCheaters, gEndN
+//@   ensures  [noblock] old(p.callback.BeginBlock == nil) ==> result == nil && gBlkN == old(gBlkN) && forall(x hash.Event, gConf[x] == old(gConf[x]) && gDeliv[x] == old(gDeliv[x]))
+//@   ensures  [block] old(p.callback.BeginBlock != nil) ==> gBlkN == old(gBlkN) + 1 && gBlkAtropos == atropos
+//@   ensures  [cheaters] old(p.callback.BeginBlock != nil) ==> len(gBlkCheaters) == ccount(p, atropos, len(stValidators.cache.ids)) && forall(i, 0, len(stValidators.cache.ids), cheat(p, atropos, i) ==> gBlkCheaters[ccount(p, atropos, i)] == stValidators.cache.ids[i])
+//@   ensures  [closed] old(p.callback.BeginBlock != nil) ==> closed(p.Orderer) && gConf[atropos] != 0
+//@   ensures  [once] dinv()
+//@   ensures  [keep] forall(x hash.Event, old(gConf[x]) != 0 ==> gConf[x] == old(gConf[x]))
+//@   ensures  [mark] forall(x hash.Event, gConf[x] == old(gConf[x]) || gConf[x] == decidedFrame)
+//@   loop 1 modifies cheaters[*]
+//@   loop 1 invariant arrof(cheaters) == arrof(atentry(cheaters)) || arrfresh(cheaters, _loopalloc)
+//@   loop 1 invariant 0 <= _k && _k <= len(_range) && arrfresh(cheaters, old(_alloc)) && len(cheaters) == ccount(p, atropos, _k)
+//@   loop 1 invariant forall(i, 0, _k, cheat(p, atropos, i) ==> cheaters[ccount(p, atropos, i)] == _range[i])
+//@   loop 1 hint unfold ccount(p, atropos, _k); use ccount_bounds(p, atropos, _k); use ccount_lt(p, atropos, _k - 1)
